@@ -98,6 +98,22 @@ def load(repo=None):
     return _cache[fdir]
 
 
+def uninlined_view(F):
+    """the fact base with every function as written (no new helper dissolved into its caller): for inventories that follow calls
+    themselves (lib/sympath.py effect inventories, who-may-call scans)"""
+    if not getattr(F, "new_helpers", None) or not F.new_helpers.get("inlined"):
+        return F
+    cached = F.__dict__.get("_uninlined_view")
+    if cached is None:
+        import copy
+        cached = copy.copy(F)
+        cached.fns = dict(F.raw_fns)
+        cached.__dict__.pop("_body_cache", None)
+        cached.new_helpers = {"new": F.new_helpers.get("new", []), "inlined": [], "kept": [], "combinators": F.new_helpers.get("combinators", [])}
+        F.__dict__["_uninlined_view"] = cached
+    return cached
+
+
 def raw_view(F, keep_loops=True):
     """the fact base for rule modules that recognise some helpers by a contract of their own (body readers: helpers with a loop):
     new helpers WITH a source loop stay functions, straight-line new helpers are still analysed in place"""
